@@ -900,6 +900,13 @@ func ConcatAll[T any]() func(Observable[Observable[T]]) Observable[T] {
 					subscriberCtx,
 					NewObserverWithContext(
 						func(ctx context.Context, source Observable[T]) {
+							// A previous source failed (or downstream unsubscribed): do not subscribe to the
+							// following sources. A synchronous outer observable keeps emitting them because its
+							// own subscription is not registered yet when `subscriptions` is disposed.
+							if subscriptions.IsClosed() {
+								return
+							}
+
 							sub := source.SubscribeWithContext(
 								ctx,
 								NewObserverWithContext(
